@@ -111,6 +111,9 @@ class SAFE(AbstractApplication):
             ctr.record_action('deliver')
 
     def _recv_bundle(self, ctr: BundleContainer) -> bool:
+        if not self._recv_for(ctr, self._safe.own_eid):
+            return False
+
         if random.randrange(5) == 0:
             # ignored
             LOGGER.info('Dropping bundle')
